@@ -7,11 +7,50 @@ ids = [p['id'] for p in props]
 
 # id -> (engine, technique, level text, level note, design ref)
 claimed = {
+ 'C01': ('A', 'explicit-state BFS over arrival histories on the real rtpDownTrack.Write / packetmap.Map vs extended-position reference',
+   'Exhaustive BFS (canonical-state dedup, cloning checkpoints for long runs) over all arrival histories (in-order, above-layer, lost, late, duplicate, bursts up to 65530, 130 alternations) up to the stated depth, for start seqnos around every 16-bit boundary, through the real rtpDownTrack.Write bound to a recording write stream and through packetmap.Map alone; every forwarded number compared with source minus withheld-before, uniqueness, duplicates, withheld-never-forwarded.',
+   'Layer state pinned so that withheld == VP8 TID>0 accepted by Drop; in order = immediate successor; resync jumps >8192 outside the quantifier; bounds as reported in evidence.', 'DESIGN.md §3 C01'),
+ 'C02': ('A', 'explicit-state BFS over whole-frame arrival/withhold histories through the real Write for every descriptor-shape configuration; independent pion parsers as oracle',
+   'For every configuration (VP8 descriptor shapes, VP9 flexible/non-flexible with two spatial layers, opaque codecs; CSRC count; header extension; picture-id width and start; start seqno) all in-order histories of frames of 1-3 packets, each forwarded or withheld, are run through the real rtpDownTrack.Write; each output packet is compared with its source (length, timestamp, CSRCs, extension, marker rule, payload bytes outside the picture id, expected picture id = source minus withheld frames), and the source buffer must be untouched.',
+   'In-order arrival and whole-frame withholding as in the quantifier; layer state pinned.', 'DESIGN.md §3 C02'),
+ 'C03': ('A', 'explicit-state BFS over forwarding histories interleaved with NACKs delivered as RTCP to the real rtcpDownListener; byte comparison with the first transmission',
+   'BFS over forward/withhold/loss/late/cache-resize/layer-request histories interleaved with NACKs for recent, never-sent, neighbouring and evicted numbers; retransmissions go through the real gotNACK/Reverse/GetPacket/cache/Write path and must be byte-identical to the first transmission or absent; plus a deeper pure Map/Drop/Reverse exploration with long runs (Reverse inverts Map, never names a withheld packet).',
+   'Packets enter the cache as readLoop stores them; cache capacity 4 so eviction is reachable; VP9 layer requests set through an accessor mirroring adjustLayer.', 'DESIGN.md §3 C03'),
+ 'C04': ('A', 'explicit-state BFS over packet/feedback/request interleavings on the real rtpDownTrack with before/after monitors',
+   'BFS over every VP8/VP9 flag pattern (tid, sid, start, keyframe, up-switch, non-reference), one late packet, REMB and receiver reports (real RTCP through the real rtcpDownListener), feedback timeout, load changes on the virtual clock and low-quality requests (real replaceTracks), from the initial and two non-initial layer states, for start seqno classes; monitors check withholding above the selection, legality of every spatial/temporal switch, selection <= layers seen, steering to sid 0 after a low-quality request, and the loss ceiling bounds.',
+   'Canonical key abstracts the sequence map to "next packet is in order" (argument in DESIGN.md); in order = immediate successor; first packet of a stream exempt from the withholding rule; concurrency of Write vs feedback at atomic granularity is not explored in this revision.', 'DESIGN.md §3 C04'),
  'C05': ('A+B',
    'explicit-state BFS over store/get/getAt/resize sequences on the real cache + preemption-bounded schedule enumeration with vector-clock race monitor',
    'Exhaustive BFS (canonical-state dedup) of all operation sequences over a colliding seqno/size/capacity alphabet up to the stated depth on the real packetcache.Cache, compared step by step with a bounded-FIFO reference; plus every schedule with <=2 (thorough: 3) preemptions of one writer and two readers with all Cache/entry fields monitored for happens-before races.',
    'Packet contents are opaque to the cache; result buffers are BufSize long; bounds: depth, alphabet and preemption bound as reported in evidence.',
    'DESIGN.md §3 C05'),
+ 'C08': ('A+D', 'full product enumeration of descriptions x credentials through readDescription/GetPermission/AddClient/handleClientMessage vs an independent reference; BFS over moderation histories; tool round trip',
+   'Full Cartesian products of group descriptions (password encodings, roles, wildcard user, flags) x credentials through the real readDescription + GetPermission, group.AddClient with harness clients, and the real websocket join handler; BFS over moderation-action histories followed by fresh logins (role table aliasing); enumeration of galenectl makePassword parameters round-tripped through Password.Match.',
+   'Second user of the map fixed; pbkdf2 trailing-NUL and 1-byte keys are inherent to the primitive (stated in evidence).', 'DESIGN.md §3 C08'),
+ 'C09': ('A', 'full product enumeration of stateful and signed tokens x groups x instants x key sets x audiences vs an independent reference (only-if oracle)',
+   'Full products over group/token-group path alphabets, validity instants around the exact boundaries on the virtual clock, usernames, permission lists (stateful, through Check, Parse and GetPermission) and over 69 signers x 17 key sets x audiences x hosts x claims for JWTs (including alg none, HMAC-with-public-key confusion, foreign keys, kid variants), plus checkGlobalAdminToken.',
+   'JWT time claims keep >=60 s margins because the JWT library reads the real clock; signature and claims dimensions explored as two full products sharing the common dimensions.', 'DESIGN.md §3 C09'),
+ 'C11': ('D', 'full product enumeration role x membership state x message kind through the real signalling handlers with a side-effect oracle; enumeration of revocation interleaving points',
+   'Full product of 8 roles x 11 membership states (never joined, refused for each cause, joined, left, kicked, other group, revoked-and-notified) x 28 privileged message kinds x unrestricted-tokens, each executed on real webClients through the real handleClientMessage/handleAction; any effect other than a refusal to the sender requires membership and the permission; installed permissions vs reference; token delegation product; edit/list token scope; revocation interleaving points.',
+   'Trusted mirror: clientLoop dispatch (one message or one action batch at a time; Exit on error); WHIP ingest credentials only through the HTTP product of C12 (no live sessions).', 'DESIGN.md §3 C11'),
+ 'C12': ('A+D', 'bounded exhaustive enumeration of client inputs (RTP/RTCP shape grammars, HTTP request product, sdpfrag line sequences, ill-typed signalling messages in every membership state) with a no-panic/response oracle',
+   'Every byte string of stated RTP/RTCP shape grammars (all 65536 descriptor prefixes, header shapes, AV1/H264 aggregation headers, every truncation) through the real classifiers, RewritePacket, rtpDownTrack.Write, readLoop and both RTCP listeners; full product of HTTP method x path shape x credential x content-type x body x precondition through the real handlers; all sdpfrag line sequences; every signalling message type with each field absent/ill-typed/empty/unknown/huge in 13 membership states, singly and in pairs.',
+   'Inputs outside the grammars; no live WebRTC session; net/http wire parsing and /ws upgrade not covered; shards that die are reported from their progress file.', 'DESIGN.md §3 C12'),
+ 'C14': ('D', 'explicit-state BFS over membership/moderation/setdata sequences and detached-task firings through the real handlers; views rebuilt with protocol.js semantics',
+   'BFS over join/leave/disconnect/kick/op/unop/present/unpresent/setdata by three clients in two groups, with lazy variants (message handled while queues are non-empty) and explicit firing of detached goroutines; per-message oracles (no event from another group, one delete per departure) and, at quiescence, every member view == Group.GetClients with usernames, permissions and data.',
+   'Trusted mirror: clientLoop dispatch; per-message bookkeeping only on histories without lazy steps.', 'DESIGN.md §3 C14'),
+ 'C15': ('D', 'explicit-state BFS over chat/usermessage/clearchat/join/leave/tick sequences through the real handleClientMessage vs a reference chat model',
+   'BFS over chat and usermessage variants (claimed source/username, dest, noecho, kinds, ids), clearchat variants, joins of late clients, a 49-message macro and clock ticks around the configured history age, by three clients with different roles in two groups; every message written to every client is checked for authenticity, privileged flag, recipients, spoof rejection and the history replay (order, bound 50, age, clears).',
+   'Queued actions handled to quiescence after every message; client k logs in as the k-th user.', 'DESIGN.md §3 C15'),
+ 'C16': ('A+B+C', 'explicit-state BFS over token operation sequences (library and HTTP) vs fresh reload; preemption-bounded schedule enumeration of conditional editors; crash-point and fault enumeration over every file-system step',
+   'BFS over create/update/delete with current, stale and empty tags, expire, clock ticks, list, get and external file edits, through the library and the HTTP route, comparing the running server with a freshly loaded state after every step; all schedules (<=2/3 preemptions) of 2-3 editors holding tags; a crash before and after every vos step of five write histories, and one injected I/O error at every step.',
+   'Process-crash model (no fsync is claimed or demanded for the token file); one Write per Encode granularity; signalling commands reach the store only through the library calls driven here.', 'DESIGN.md §3 C16'),
+ 'C17': ('A', 'full product enumeration method x endpoint shape x credential x body through the real apiHandler; BFS over valid update sequences vs a reference model of the description',
+   'Full product of 7 methods x 199 paths (every router shape) x 23 credentials x content-types executed in-process: insufficient credentials must get 401/404 with byte-identical trees and no data; no response ever contains a secret marker; BFS over valid admin updates checks that nothing unaddressed is lost or altered on disk.',
+   'Requests bypass net/http path cleaning; JWT credentials issued around the real clock.', 'DESIGN.md §3 C17'),
+ 'C18': ('A+B+C', 'full enumeration of precondition header strings vs RFC 7232 reference; preemption-bounded schedule enumeration of concurrent API requests with a linearisation oracle; crash-point enumeration under process-crash and power-failure models',
+   'All header strings of <=3/4 tokens through etagMatch/checkPreconditions; all schedules (<=2/3 preemptions) of 31 pairs and 5 triples of conditional GET/PUT/DELETE requests through the real apiHandler with a linearisation search (exclusivity, lost updates, conditional reads, complete definitions); a crash before/after every file-system step of rewriteDescriptionFile histories, with unsynced files materialised as empty/synced-prefix.',
+   'Directory-entry durability of rename assumed; file reads are not scheduling points (one Write is one step).', 'DESIGN.md §3 C18'),
 }
 
 not_applicable_reason = {}
